@@ -6,7 +6,11 @@ HOOK_COMMITS = ["d85c6ee", "170bde9", "43ffa35", "8043914", "4c6f2d6", "8d2eb59"
 
 # id -> (engine, category, technique, level text, level note, design ref)
 CHECKS = {
- "C06": ("E1-simnet-explorer", "model_checking",
+ "C17": ("E1-simnet-explorer", "model_checking",
+   "exhaustive enumeration of second-call relations x placements and of storer reply splits x arrival orders against a real node over a simulated network",
+   "A real node with scripted storers: the second put_mutable in every relation (identical / lower / equal-other / higher seq x cas none / matching / other x salted or not) is placed before every event of the first put's lifetime and after it, with the expected local verdict derived from whether the node's snapshot shows the first put in flight; every split of ack/301/302 among 3 (quick) / 3-4 (thorough) storers in every arrival order for mutable puts, and for the other put kinds through the typed sync-equivalent async APIs.",
+   "Scripted storers ack everything in part 1.", "DESIGN.md section 6, C17"),
+  "C06": ("E1-simnet-explorer", "model_checking",
    "exhaustive enumeration of call overlaps and deviation-bounded exploration of fault schedules on a real node over a simulated network; completion oracle at a virtual-time horizon",
    "A real node with three peers: every ordered pair of the 13 API calls with the second placed before every network event of the first and inside/outside the cache window; every single call under every single (thorough: pair of) dropped / duplicated / late datagram and every peer failure point, against scripted and against real server peers; unread sync iterators held open. Every call must resolve exactly once within 120 virtual seconds and the actor must survive.",
    "Latency 10 ms, late = 900 ms; three peers.", "DESIGN.md section 6, C06"),
